@@ -14,6 +14,8 @@ import (
 // every query; body is a sequence of definitions/assertions in program order,
 // an obligation uses the prefix of body that existed when it was raised.
 type Ctx struct {
+	countersUsed   map[string]bool
+	countersBumped map[string]bool
 	decls    []string
 	declSet  map[string]bool
 	body     []string
@@ -57,6 +59,10 @@ func (c *Ctx) entryClosureAxioms(text string) []string {
 		kind := c.ptrComps[n]
 		if kind == "field" {
 			out = append(out, fmt.Sprintf("(assert (forall ((x Int)) (! (<= (select %s x) %s) :pattern ((select %s x)))))", en, top, en))
+		} else if kind == "slicefield" {
+			out = append(out, fmt.Sprintf("(assert (forall ((x Int)) (! (<= (s.arr (select %s x)) %s) :pattern ((select %s x)))))", en, top, en))
+		} else if kind == "ifacefield" {
+			out = append(out, fmt.Sprintf("(assert (forall ((x Int)) (! (<= (i.val (select %s x)) %s) :pattern ((select %s x)))))", en, top, en))
 		} else if kind == "mapkey" {
 			out = append(out, fmt.Sprintf("(assert (forall ((m Int) (k Int)) (! (=> (select (select %s m) k) (<= k %s)) :pattern ((select (select %s m) k)))))", en, top, en))
 		} else {
@@ -138,6 +144,16 @@ func (c *Ctx) Assert(t string) {
 }
 
 func (c *Ctx) Mark() int { return len(c.body) }
+
+// counters named by ncalls("...") in specifications / incremented by calls
+// (a name that matches no call of the function is a contract error)
+func (c *Ctx) checkCounters() {
+	for n := range c.countersUsed {
+		if !c.countersBumped[n] {
+			c.Unsupported("ncalls(%q): the function under verification contains no call with that name", strings.TrimPrefix(n, "$c."))
+		}
+	}
+}
 
 func (c *Ctx) Unsupported(format string, a ...interface{}) {
 	c.unsupported = append(c.unsupported, fmt.Sprintf(format, a...))
